@@ -1,6 +1,7 @@
 import Mps.Json
 import Mps.Drv.Frame
 import Mps.Drv.Handler
+import Mps.Drv.Session
 /-
   mpsdriver: reads the harness' JSON lines on stdin, answers one line per operation with what
   the MODEL says: {"id":N,"model":{...}}. Core-only (no Mathlib below this file).
@@ -13,6 +14,7 @@ structure DState where
 def dispatch (st : DState) (suite op : String) (inp : Json) : DState × Json :=
   match suite with
   | "frame" => (st, Mps.Drv.Frame.handle op inp)
+  | "session" => (st, Mps.Drv.Session.handle op inp)
   | "handler" | "handlerconc" => let (h, j) := Mps.Drv.Handler.handle st.handler op inp; ({ st with handler := h }, j)
   | _ => (st, jobj [("error", "unknown suite")])
 
